@@ -1,1 +1,1 @@
-    ensures be_signed(bv(r)) == bi(*v), is_min_signed(bv(r))
+    ensures be_signed(bv(r)) == bi(*v), is_min_signed(bv(r)), bv(r).len() * 8 <= usize::MAX
